@@ -5,8 +5,9 @@
   known-findings file.
 * BENIGN: behaviour-preserving edits (renames, reordering of independent statements, extra logging).
   The rules must stay silent (no new finding) and must not hit an ANALYSIS-ERROR.  Every property
-  also gets four whole-package rewrites (bsa/variants.py): ast round trip (layout), a logging call at
-  the start of every statement list, reworded / added docstrings, and every local variable renamed.
+  also gets six whole-package rewrites (bsa/variants.py): ast round trip (layout), a logging call at
+  the start of every statement list, reworded / added docstrings, every local variable renamed, every if/else with its branches swapped
+  under the negated test, and every pure comparison mirrored.
 
 Edits are exact-once text substitutions on a copy of /repo/src/bluesky made under tempfile.mkdtemp()
 (outside /repo and /verif) and removed before exit.  The copy is only parsed, never imported or run.
